@@ -19,6 +19,9 @@ import (
 	"math"
 	"path/filepath"
 	"sort"
+	"strings"
+	"sync"
+	"time"
 
 	"github.com/oklog/ulid/v2"
 	"github.com/prometheus/client_golang/prometheus"
@@ -121,12 +124,43 @@ func (p *plannedCompactor) Plan(dir string) ([]string, error) {
 	return n, nil
 }
 
+// logBuf is a slog.Handler that keeps the messages of level Warn and above (and any message
+// containing "failed").
+type logBuf struct {
+	mu   sync.Mutex
+	msgs []string
+}
+
+func (l *logBuf) Enabled(_ context.Context, lv slog.Level) bool { return lv >= slog.LevelInfo }
+func (l *logBuf) Handle(_ context.Context, r slog.Record) error {
+	if r.Level < slog.LevelWarn && !strings.Contains(r.Message, "failed") {
+		return nil
+	}
+	l.mu.Lock()
+	l.msgs = append(l.msgs, r.Level.String()+": "+r.Message)
+	l.mu.Unlock()
+	return nil
+}
+func (l *logBuf) WithAttrs([]slog.Attr) slog.Handler { return l }
+func (l *logBuf) WithGroup(string) slog.Handler      { return l }
+
 // DB is an open database plus what is needed to reopen it.
 type DB struct {
 	*tsdb.DB
 	Dir  string
 	Opts Options
 	comp *plannedCompactor
+	lb   *logBuf
+}
+
+// Logs returns (and clears) the warnings / errors / "... failed" messages the database logged
+// since the last call (e.g. "Loading on-disk chunks failed" during Open).
+func (d *DB) Logs() []string {
+	d.lb.mu.Lock()
+	defer d.lb.mu.Unlock()
+	out := d.lb.msgs
+	d.lb.msgs = nil
+	return out
 }
 
 func (o Options) tsdbOptions(pc **plannedCompactor) *tsdb.Options {
@@ -153,6 +187,7 @@ func (o Options) tsdbOptions(pc **plannedCompactor) *tsdb.Options {
 	t.NoLockfile = true
 	// keep Open cheap: the harnesses open thousands of tiny databases
 	t.StripeSize = 64
+	t.BlockReloadInterval = 24 * time.Hour // no periodic reloadBlocks / mmapHeadChunks behind the harness' back
 	t.WALSegmentSize = 1 << 20
 	t.HeadChunksWriteBufferSize = 64 * 1024
 	t.EnableDelayedCompaction = false
@@ -172,9 +207,11 @@ func (o Options) tsdbOptions(pc **plannedCompactor) *tsdb.Options {
 }
 
 // Open opens (or reopens) the database in dir. The background compaction loop is disabled.
-func Open(dir string, o Options) (*DB, error) {
-	d := &DB{Dir: dir, Opts: o}
-	db, err := tsdb.Open(dir, slog.New(slog.DiscardHandler), nil, o.tsdbOptions(&d.comp), nil)
+func Open(dir string, o Options) (*DB, error) { return open(dir, o, &logBuf{}) }
+
+func open(dir string, o Options, lb *logBuf) (*DB, error) {
+	d := &DB{Dir: dir, Opts: o, lb: lb}
+	db, err := tsdb.Open(dir, slog.New(lb), nil, o.tsdbOptions(&d.comp), nil)
 	if err != nil {
 		return nil, err
 	}
@@ -188,7 +225,7 @@ func (d *DB) Reopen() error {
 	if err := d.DB.Close(); err != nil {
 		return fmt.Errorf("close: %w", err)
 	}
-	n, err := Open(d.Dir, d.Opts)
+	n, err := open(d.Dir, d.Opts, d.lb)
 	if err != nil {
 		return fmt.Errorf("open: %w", err)
 	}
